@@ -371,6 +371,7 @@ class IrToPythonCompiler:
 
         This is a non-optimal, but always working strategy.
         """
+        self.emit("_irpy_stack_mark = len(rt.stack)")
         self.emit("_irpy_prev_block = None")
         self.emit(f"_irpy_current_block = '{ir_function.entry.name}'")
         self.emit("while True:")
@@ -395,8 +396,8 @@ class IrToPythonCompiler:
             self.emit(f"{phi_names} = {value_names}")
 
     def reset_stack(self):
-        self.emit(f"rt.free({self.stack_size})")
-        self.stack_size = 0
+        # Release everything this activation allocated, whichever allocas ran
+        self.emit("rt.free(len(rt.stack) - _irpy_stack_mark)")
 
     def emit_jump(self, target: ir.Block, block: ir.Block):
         """Perform a jump in block mode."""
